@@ -271,6 +271,14 @@ def run(rep, tier, scratch, only=None):
         cases.sort(key=tc.case_id)
         sel = cases[::stride]
         if stride > 1:
+            # ... and every case whose ports are two variables, one of them wired
+            # by a dictionary (few; they collide on one node or sit side by side)
+            picked = {tc.case_id(c) for c in sel}
+            sel = sel + [c for c in cases
+                         if tc.case_id(c) not in picked and len(c['ports']) == 2
+                         and all(p['kind'] == 'leaf' for p in c['ports'])
+                         and any(p['t'] == 'dict' for p in c['ports'])]
+        if stride > 1:
             rep.notes['subsample_' + name] = 'every %dth of %d cases' % (stride, len(cases))
         for k, c in enumerate(sel):
             if only is not None and tc.case_id(c) != only:
